@@ -73,7 +73,7 @@ def body(c):
     if notes["bytes_differ_from_spec"] or notes["commit_bytes_differ_from_spec"]:
         c.notes.append("the crate's bytes differ from the spec's canonical encoding for %d programs (judged by C03)" % (notes["bytes_differ_from_spec"] + notes["commit_bytes_differ_from_spec"]))
     c.sample({"program": cases[len(cases) // 2]["dag"], "witnesses": cases[len(cases) // 2]["wit"], "spec bits": cases[len(cases) // 2]["pb"]})
-    runs = 300 if q else 6000
+    runs = 1000 if q else 8000
     tpath = os.path.join(c.work, "trace.ndjson")
     c.vh(["c01", "record", runs, tpath], timeout=3000)
     def describe(ev):
